@@ -1,6 +1,7 @@
 (* C09: streaming is transparent -- results independent of I/O fragmentation and faults. *)
 From Coq Require Import List NArith Lia Bool.
-From Rpgp Require Import Base.Octets Base.Res Io.Fill Io.FillProofs Armor.Base64 Armor.LineWriter Armor.LineWriterProofs.
+From Rpgp Require Import Base.Octets Base.Res Sym.Cfb Sym.Seipd1Machine Sym.Seipd1MachineProofs.
+From Rpgp Require Import Io.Fill Io.FillProofs Armor.Base64 Armor.LineWriter Armor.LineWriterProofs Armor.B64Reader Armor.B64ReaderProofs.
 Import ListNotations.
 Open Scope N_scope.
 
@@ -43,3 +44,18 @@ Theorem C09_line_writer_chunking_independent : forall w, 1 <= w -> forall c1 c2,
   concat c1 = concat c2 -> lw_run w c1 = lw_run w c2.
 Proof. exact lw_run_chunking_independent. Qed.
 Print Assumptions C09_line_writer_chunking_independent.
+
+(* and a concrete stateful reader: the base64 character filter of the armor reader *)
+Theorem C09_b64_reader_is_whole : forall pieces s,
+  b64r_run s pieces = fst (b64r_piece s (concat pieces)).
+Proof. exact b64r_run_is_whole. Qed.
+Print Assumptions C09_b64_reader_is_whole.
+
+(* and a stateful decrypting reader: the SEIPD v1 stream decryptor (8192-octet buffer, 22 octets
+   held back) hands out the same octets and ends the same way whatever sizes the consumer asks for *)
+Theorem C09_v1_decryptor_request_independent :
+  forall E bs sha1, 1 <= bs -> (forall x, lenN (E x) = bs) ->
+    forall mode (req1 req2 : N -> N) ct,
+      run_machine E bs sha1 mode req1 ct = run_machine E bs sha1 mode req2 ct.
+Proof. exact machine_request_independent. Qed.
+Print Assumptions C09_v1_decryptor_request_independent.
